@@ -171,7 +171,7 @@ def _unbounded(reg):
     return bool(R.x_in(reg, (F(10**6), F(10**6 + 1))))
 
 
-PAIRS_QUICK = [("big", "square"), ("penta", "unit"), ("hollow", "unit"), ("inv:square", "inv:big"), ("two", "unit"), ("hollow", "hollow2"), ("inv:ell", "inv:unit")]
+PAIRS_QUICK = [("big", "square"), ("penta", "unit"), ("hollow", "unit"), ("inv:square", "inv:big"), ("two", "unit"), ("hollow", "hollow2"), ("inv:ell", "inv:unit"), ("youa", "bar")]
 PAIRS_THOROUGH = PAIRS_QUICK + [("ell", "unit"), ("you", "small"), ("inv:hollow", "unit"), ("inv:two", "inv:big"), ("framedot", "unit"), ("inv:ell", "inv:big"),
                                 ("big", "two"), ("hollow", "two"), ("inv:unit", "hollow"), ("quad", "tri")]
 
@@ -185,6 +185,9 @@ def specs(tier):
     for A, B in pairs[: 3 if tier == "quick" else len(pairs)]:
         for flag in (True, False):
             out.append(dict(module="checks.c03", scenario="Contain", params=dict(A=A, B=B, mode="jordan", flag=flag), time_budget=None if tier == "quick" else 1800))
+    for d in ((0, 1), (1, 0)):
+        out.append(dict(module="checks.c03", scenario="Contain", params=dict(A="youb", B="bar2", direction=list(d), lim=2), time_budget=None if tier == "quick" else 1800))
+        out.append(dict(module="checks.c03", scenario="Contain", params=dict(A="youb", B="bar2", direction=list(d), lim=2, mode="jordan"), time_budget=None if tier == "quick" else 1800))
     for A, B in [("empty", "unit"), ("whole", "unit"), ("unit", "empty"), ("unit", "whole"), ("empty", "whole"), ("whole", "empty"), ("empty", "empty"), ("whole", "whole")]:
         out.append(dict(module="checks.c03", scenario="Contain", params=dict(A=A, B=B)))
     return out
